@@ -16,4 +16,6 @@ RUSTFLAGS="--cfg rten_verif" CARGO_TARGET_DIR="$ROOT/target/a" cargo build --off
 RUSTFLAGS="--cfg rten_verif" CARGO_TARGET_DIR="$ROOT/target/a" cargo build --offline --profile ship -p sim_load || fail=1
 CARGO_TARGET_DIR="$ROOT/target/plain" cargo build --offline --release -p sim_extdata || fail=1
 RUSTFLAGS="--cfg rten_verif" CARGO_TARGET_DIR="$ROOT/target/a" cargo build --offline --release -p sim_exec || fail=1
+RUSTFLAGS='--cfg rten_verif="shuttle_pool"' CARGO_TARGET_DIR="$ROOT/target/c" cargo build --offline --release -p sim_pool || fail=1
+( MIRIFLAGS="-Zmiri-many-seeds=0..1" CARGO_TARGET_DIR="$ROOT/target/miri" cargo +nightly miri run --offline -p sim_pool_miri -- 1 0 1 >/dev/null 2>&1 ) || fail=1
 exit $fail
